@@ -321,6 +321,45 @@ def rules(ck, P):
                  "the lookup is guarded by %s but the stream is not clipped by it: the stream delivers tiles the lookups do not" % extra_g,
                  ir.loc(G[extra_g[0]]) if extra_g else ir.loc(lk))
     ck.anchor("R-AGREE", "types implementing both lookup and stream", list(range(n_pairs)), 8)
+    # a helper of the workspace that both the lookup and the stream of one type call to PRODUCE the tile gets the same configuration on
+    # both paths: an argument that is a field of self / a constant on one path must be the same field / constant on the other
+    n_shared = 0
+    for fq in E:
+        b = P.fn(fq)
+        if b.get("trait_default_of") or not b.get("self_adt"):
+            continue
+        look = [x for x in P.bodies if x.get("self_adt") == b["self_adt"] and x.get("trait_item", "").endswith(("TilesReaderTrait::get_tile_data", "OperationTrait::get_tile_data"))
+                and x.get("trait_item", "").rsplit("::", 2)[-2] == b.get("trait_item", "").rsplit("::", 2)[-2]]
+        if not look:
+            continue
+        lk = look[0]
+
+        def calls_of(body):
+            lets = comp.lets_of(body)
+            out = {}
+            for n in ir.walk_nodes(body["body"]):
+                if n.get("k") == "call" and P.fn(n.get("q") or "") is not None and P.is_workspace(n.get("q") or "") and "::{" not in (n.get("q") or ""):
+                    args = []
+                    for a in n.get("a", ()):
+                        if ir.strip(a).get("k") == "lit":
+                            args.append("const:%s" % ir.strip(a).get("v"))
+                            continue
+                        pl = comp.deep_place(a, lets)
+                        args.append(pl if pl.startswith("self.") else None)
+                    out.setdefault(n["q"], []).append((args, n))
+            return out
+        cs, cl = calls_of(b), calls_of(lk)
+        for q in sorted(set(cs) & set(cl)):
+            if len(cs[q]) != 1 or len(cl[q]) != 1:
+                continue
+            n_shared += 1
+            (as_, ns), (al_, nl) = cs[q][0], cl[q][0]
+            diff = [(i, al_[i], as_[i]) for i in range(min(len(as_), len(al_))) if as_[i] is not None and al_[i] is not None and as_[i] != al_[i]]
+            diff += [(i, al_[i], as_[i]) for i in range(min(len(as_), len(al_))) if (as_[i] is None) != (al_[i] is None) and str(as_[i] or al_[i]).startswith("const:")]
+            ck.check(not diff, "R-AGREE", "%s|same-arguments|%s" % (fq, q.rsplit("::", 1)[-1]), "lookup and stream call %s with the same configuration" % q.rsplit("::", 1)[-1],
+                     "lookup and stream of %s call %s with different configuration: %s — the streamed tile is not the tile a lookup returns" %
+                     (b["self_adt"].rsplit("::", 2)[-2], q.rsplit("::", 1)[-1], "; ".join("argument %d is `%s` in the lookup and `%s` in the stream" % (i + 1, x, y) for i, x, y in diff)), ir.loc(ns))
+    ck.anchor("R-AGREE", "tile-producing helpers shared by lookup and stream", list(range(n_shared)), 1)
     # ---------------- R-INDEX-SCAN
     scans = [P.fn(fq) for fq in E if ir.contains(P.fn(fq)["body"], lambda y: y.get("k") == "mcall" and (y.get("q") or "").endswith("::get_block_tile_index"))]
     if ck.anchor("R-INDEX-SCAN", "streams that scan a block's tile index", scans, 1):
